@@ -235,6 +235,30 @@ def run(pid, level="model_checking"):
                               {"kind": "csv", "auto_index": fby[tid]["auto_index"], "ops": [e["a"] for e in fby[tid]["events"]], "fault_at": ev["fault"]["at"]},
                               tags={"clause:fault_index", "op:" + ev["a"]["op"], "at:" + ev["fault"]["at"]})
                 break
+    n_suite = 0
+    if pid in ("C01", "C02", "C03", "C06", "C07"):
+        # the repository's own test suite, recorded by the pytest plug-in and judged by the same trace specification
+        import suite
+        allow = suite.allowlist().get("accepted_on_clean_tree", {})
+        strs, _, _ = suite.record()
+        strs = [t for t in strs if t["id"] in allow]
+        if strs:
+            sver, sjs = traces.judge(strs)
+            n_suite = len(strs)
+            for t in strs:
+                for err in traces.errors(sver[t["id"]]):
+                    ev = traces.failing_event(t, err)
+                    op = ev["a"]["op"]
+                    own = "C06" if err["clause"] in ("index", "valid") else \
+                        ("C03" if op == "update_opaque" else traces.owner(ev["a"], err["clause"], ev["exc"]))
+                    if own != pid:
+                        cut[own] = cut.get(own, 0) + 1
+                        continue
+                    rep.violation("test %s, call %d (%s): clause '%s' fails; logged exc=%r res=%s; spec expected %s"
+                                  % (t["id"], err["step"], op, err["clause"], ev["exc"], json.dumps(ev["res"])[:200], json.dumps(err["expected"])[:200]),
+                                  {"suite_trace": t["id"], "step": err["step"], "clause": err["clause"]},
+                                  tags={"suite", "op:" + op, "clause:" + err["clause"]})
+                    break
     ok = sum(1 for v in verdicts.values() if v["ok"])
     rep.coverage = {
         "states": st + js["states"] + rp.distinct,
@@ -252,6 +276,7 @@ def run(pid, level="model_checking"):
         "failures_owned_by_other_properties": cut,
         "tlc_paths": len(paths), "tlc_simulated": len(sims), "random_histories": n_rand, "events_judged": n_events,
         "operations_executed_by_kind": op_hist(recorded), "fault_runs_with_index_observation": n_fault,
+        "test_suite_traces_judged": n_suite,
         "design_states": st, "design_transitions": tr_, "checker_cmd": cmd,
     }
     rep.assumptions = ["values are ranks mapped order-isomorphically to real values by the plain theme (verified at start-up)",
@@ -264,6 +289,20 @@ def replay(repj):
     """Re-execute a replay file against the working tree and ask TLC again."""
     common.use_repo()
     c = repj["case"]
+    if "suite_trace" in c:
+        import suite
+        strs = [t for t in suite.record()[0] if t["id"] == c["suite_trace"]]
+        if not strs:
+            print("replay: test-suite trace %s was not recorded" % c["suite_trace"])
+            return 2
+        sv, _ = traces.judge(strs, workers=1)
+        errs = traces.errors(sv[strs[0]["id"]])
+        for err in errs:
+            print("replay: test %s, call %d: clause '%s' fails; spec expected %s" % (c["suite_trace"], err["step"], err["clause"], json.dumps(err["expected"])[:300]))
+        return 1 if errs else 0
+    if "fault_at" in c:
+        print("replay: fault-injection case (re-run ./check %s): %s" % (repj["property"], json.dumps(c)[:1500]))
+        return 1
     job = ("replay", c["kind"], c["auto_index"], c["ops"], c.get("battery", []), NTK, NFK)
     rec = traces.record_all([job], nproc=1)
     v, _ = traces.judge(rec, workers=1)
